@@ -1519,3 +1519,79 @@ func c13r17(rc *core.RC) {
 	})
 	rc.Check(!(search && nparams == 1), "encoder.mapKeyText/opening-quote-not-guessed", fd.Pos(), "the text of a recorded key is taken to begin behind the first quote of the recorded bytes, which begin with the colour format's header under Colorize: a format whose header holds a quote makes all keys of a map compare equal, and the members are written in iteration order")
 }
+
+// ---- C13.R18 the interpreters write the encoded member name, never the display name ----
+
+// An operation carries the member name twice: Key is the name as it is written (quoted, escaped for the HTML option of
+// the program, with its colon), DisplayKey is the raw tag name for Dump. The two spell the same bytes for every name
+// without <, > or &, so a writer that takes DisplayKey passes every test with ordinary names and differs from the
+// other interpreters for `json:"a<b"`. Obligation: no function of the four interpreter packages that returns []byte
+// reads Opcode.DisplayKey; in package encoder it is read (copied and dumped), which keeps the rule from passing
+// because the field went away.
+func c13r18(rc *core.RC) {
+	p := rc.P
+	readsIn := func(short string, onlyWriters bool) (int, []ast.Node, []string) {
+		n := 0
+		var at []ast.Node
+		var where []string
+		for _, fd := range p.Funcs(short) {
+			if fd.Body == nil {
+				continue
+			}
+			info := p.Info(fd)
+			if onlyWriters {
+				w := false
+				if fd.Type.Results != nil {
+					for _, r := range fd.Type.Results.List {
+						if t := info.TypeOf(r.Type); t != nil && t.String() == "[]byte" {
+							w = true
+						}
+					}
+				}
+				if !w {
+					continue
+				}
+			}
+			assigned := map[ast.Node]bool{}
+			ast.Inspect(fd.Body, func(m ast.Node) bool {
+				if as, ok := m.(*ast.AssignStmt); ok {
+					for _, l := range as.Lhs {
+						assigned[core.Unparen(l)] = true
+					}
+				}
+				if kv, ok := m.(*ast.KeyValueExpr); ok {
+					assigned[kv.Key] = true
+				}
+				return true
+			})
+			ast.Inspect(fd.Body, func(m ast.Node) bool {
+				sel, ok := m.(*ast.SelectorExpr)
+				if !ok || assigned[sel] {
+					return true
+				}
+				if f := core.FieldOf(info, sel); f != nil && f.Name() == "DisplayKey" && strings.HasSuffix(f.Pkg().Path(), "internal/encoder") {
+					n++
+					at = append(at, sel)
+					where = append(where, p.FuncName(fd))
+				}
+				return true
+			})
+		}
+		return n, at, where
+	}
+	ref, _, _ := readsIn("encoder", false)
+	if ref < 2 {
+		rc.Unknown("encoder/Opcode.DisplayKey-reads", token.NoPos, "found %d reads of Opcode.DisplayKey in package encoder, fewer than the 2 confirmed by hand (copyOpcode, dumpKey)", ref)
+		return
+	}
+	for _, vm := range core.VMPkgs {
+		key := vm + "/writers-take-Key-not-DisplayKey"
+		n, at, where := readsIn(vm, true)
+		rc.Touch(vm + ".Run")
+		if n == 0 {
+			rc.OK(key, token.NoPos, "no function of %s that returns []byte reads Opcode.DisplayKey (%d reads in package encoder: copy and dump)", vm, ref)
+		} else {
+			rc.Bad(key, at[0].Pos(), "%s writes the display name of a member (Opcode.DisplayKey, the raw tag name) where the other interpreters write Opcode.Key, the name escaped for the program's HTML option: for a name with <, > or & this interpreter's output differs from theirs", where[0])
+		}
+	}
+}
